@@ -226,6 +226,8 @@ impl FilesystemStore {
         }
 
         let mut file = flags.open(key_path)?;
+        #[cfg(zarrs_verif)]
+        zarrs_storage::verif_hooks::emit("fs.set.write", &[]);
 
         // Write
         if enable_direct {
